@@ -799,7 +799,17 @@ func runC09(t *testing.T, r *kit.Run) {
 			if usePrev {
 				sched.Seed++
 			}
-			res := runScan(t, scanCfg{data: f.Data[off:], procs: p2, cut: -1, errAt: -1, sched: sched, tape: r.Tape, skip: skip, maxObj: len(want) + 20, trace: r.Replay})
+			// the new scanner either gets the remaining bytes, or - like a caller resuming from a file - a seekable reader
+			// over the whole data positioned at the offset; half of the time it is asked for the header first
+			rcfg := scanCfg{data: f.Data[off:], procs: p2, cut: -1, errAt: -1, sched: sched, tape: r.Tape, skip: skip, maxObj: len(want) + 20, trace: r.Replay, header: r.Tape.Bool()}
+			if off > 0 && r.Tape.Bool() {
+				rcfg.data, rcfg.startAt = f.Data, int(off)
+				r.Out.Probe("resumed-through-a-seekable-reader")
+			}
+			if rcfg.header {
+				r.Out.Probe("resumed-scan-asked-for-header-first")
+			}
+			res := runScan(t, rcfg)
 			addSim(r.Out, &res, wl^uint64(k)<<20^uint64(mask), true)
 			r.Out.Fault("consumer-crash-and-restart")
 			if off > 0 {
